@@ -18,6 +18,11 @@
 //                     for l = 0..2 (l = 3: nothing), listens and accepts a connection made by the harness; m&1 = 0: the accepted
 //                     Socket is used as it comes (its own default order, NATIVE, whatever the listener has: the case then starts in
 //                     NATIVE order), m&1 = 1: it gets its own setEndian(init order); direction as given by init's second argument
+//   fcopy k           (File sink) the byte order is set on a File object that is then COPIED, and the copy does the I/O: k mod 4 = 1
+//                     copy-constructed, 2 passed to and returned from a function by value, 3 stored in an Array<File> and the element used
+//                     (0: no copy). A copy keeps the configured order.
+//   big t n seed      an Array<T> of n <= 2^20 elements derived from the seed (part "bigwrite": written with one << to a TCP socket
+//                     with small buffers and a send timeout against a slow reader, so that the one write() needs many short send()s)
 //   ra k              write AGAIN the same Array object that the (k mod n)-th of the n earlier "a" ops created (in the order
 //                     now in force); the source objects live for the whole case and are shared by the three sinks, and after
 //                     every << the source (Array / String / ByteArray / C string) must still equal the model
@@ -172,6 +177,7 @@ struct Plan {
 	std::vector<size_t> cuts;   // sorted distinct offsets in (0, all.size())
 	std::vector<size_t> sessStart; // part "reconn": item index at which a new connection starts (first session starts at 0)
 	std::vector<int> sessDir;      // direction of each session: 0 the client writes, 1 the client reads
+	int fcopy = 0;                 // File sink: 0 the configured object does the I/O, 1..3 a copy of it does
 	int lorder = -1, accmode = 0;  // part "accept": order given to the listening Socket (3 none), accepted Socket 0 untouched / 1 own setEndian
 };
 
@@ -216,6 +222,22 @@ static Plan decode(const vf::Case& c)
 				p.sessDir.push_back((int)(o.i(0) & 1));
 			}
 			continue;
+		}
+		else if (o.name == "fcopy") {
+			p.fcopy = (int)(((o.i(0) % 4) + 4) % 4);
+			continue;
+		}
+		else if (o.name == "big") {
+			it.kind = 2;
+			it.t = (int)(((o.i(0) % 12) + 12) % 12);
+			long long n = o.i(1) < 0 ? 0 : o.i(1) > (1 << 20) ? (1 << 20) : o.i(1);
+			ref::Mix g((uint64_t)o.i(2));
+			it.x.reserve((size_t)n);
+			it.bytes.reserve((size_t)n * TYPE_SIZE[it.t]);
+			for (long long k = 0; k < n; k++) {
+				it.x.push_back(canon(it.t, g.next()));
+				ref_put(it.bytes, it.x.back(), TYPE_SIZE[it.t], order);
+			}
 		}
 		else if (o.name == "ls") {
 			it.kind = 5;
@@ -426,9 +448,12 @@ struct BufIn {
 	void feed(const std::string&) {}
 };
 
+static File file_by_value(File g) { return g; }
+
 struct FileIn {
 	File f;
 	FileIn(const std::string& path) : f(String(path.c_str()), File::READ) {}
+	FileIn(const File& configured, int) : f(configured) { f.open(File::READ); } // a copy of a configured, not yet opened File
 	void setEndian(Endian e) { f.setEndian(e); }
 	template <class T>
 	T get()
@@ -779,6 +804,87 @@ static void run_accept(const Plan& p, Sources& src)
 	close(peer);
 }
 
+// ---- one big operator<< on a TCP socket that can only send it in many short pieces (part "bigwrite")
+//
+// Small socket buffers, a send timeout of 20 ms set through Socket::setOption and a reader that takes ~4 KB per millisecond:
+// every send() inside the one Socket::write() returns after 20 ms with a part of the data. If a send() makes no progress at
+// all within its 20 ms (a stalled reader on a loaded machine) the library stops with its error flag set - that is its defined
+// behaviour, and such a run is counted as inconclusive instead of judged.
+static void run_bigwrite(const Plan& p, Sources& src)
+{
+	int lfd = socket(AF_INET, SOCK_STREAM, 0), peer = -1;
+	std::thread reader;
+	std::string got;
+	try {
+		sockaddr_in a;
+		memset(&a, 0, sizeof a);
+		a.sin_family = AF_INET;
+		a.sin_addr.s_addr = htonl(INADDR_LOOPBACK);
+		socklen_t n = sizeof a;
+		int small = 16384;
+		VF_CHECK(lfd >= 0 && setsockopt(lfd, SOL_SOCKET, SO_RCVBUF, &small, sizeof small) == 0 && bind(lfd, (sockaddr*)&a, sizeof a) == 0 && listen(lfd, 4) == 0 && getsockname(lfd, (sockaddr*)&a, &n) == 0,
+		         "harness: cannot set up the loopback listener, errno ", errno);
+		Socket client;
+		client.setEndian((Endian)p.init);
+		VF_CHECK(client.setOption(SOL_SOCKET, SO_SNDBUF, small), "harness: setOption(SO_SNDBUF) failed");
+		timeval tv = {0, 20000};
+		VF_CHECK(client.setOption(SOL_SOCKET, SO_SNDTIMEO, tv), "harness: setOption(SO_SNDTIMEO) failed");
+		VF_CHECK(client.connect(InetAddress("127.0.0.1", ntohs(a.sin_port))), "harness: connect to the loopback listener failed");
+		pollfd pf = {lfd, POLLIN, 0};
+		VF_CHECK(poll(&pf, 1, 5000) > 0 && (peer = accept(lfd, 0, 0)) >= 0, "harness: accept failed, errno ", errno);
+		const int rfd = peer;
+		reader = std::thread([rfd, &got]() {
+			char buf[4096];
+			for (;;) {
+				pollfd q = {rfd, POLLIN, 0};
+				if (poll(&q, 1, 10000) <= 0)
+					break;
+				ssize_t k = recv(rfd, buf, sizeof buf, 0);
+				if (k < 0 && errno == EINTR)
+					continue;
+				if (k <= 0)
+					break;
+				got.append(buf, (size_t)k);
+				if (got.size() % 4096 == 0)
+					usleep(900);
+			}
+		});
+		bool failed = false;
+		size_t sent_items = 0;
+		for (const Item& it : p.items) {
+			write_item(client, it, src, "Socket");
+			if (client.error() != 0) {
+				failed = true; // a send() timed out without any progress: the write was abandoned by the library (defined, not judged)
+				break;
+			}
+			sent_items++;
+		}
+		client.close();
+		reader.join();
+		close(peer);
+		peer = -1;
+		close(lfd);
+		lfd = -1;
+		if (failed) {
+			vf::stats().cls("bigwrite.inconclusive(send made no progress within its timeout)");
+			return;
+		}
+		vf::stats().cls("bigwrite.judged");
+		compare_bytes(p, got, "Socket (one big << sent in many short pieces)");
+	}
+	catch (...) {
+		if (peer >= 0)
+			shutdown(peer, SHUT_RDWR);
+		if (reader.joinable())
+			reader.join();
+		if (peer >= 0)
+			close(peer);
+		if (lfd >= 0)
+			close(lfd);
+		throw;
+	}
+}
+
 static int g_caseno = 0;
 
 void vf_run_case(const std::string& part, const vf::Case& c)
@@ -787,6 +893,10 @@ void vf_run_case(const std::string& part, const vf::Case& c)
 	Sources src(p);
 	if (part == "reconn") {
 		run_reconnect(p, src);
+		return;
+	}
+	if (part == "bigwrite") {
+		run_bigwrite(p, src);
 		return;
 	}
 	if (part == "accept") {
@@ -840,7 +950,7 @@ void vf_run_case(const std::string& part, const vf::Case& c)
 		std::string path = ref::tmpdir() + "/c16w_" + std::to_string(g_caseno % 4) + ".bin";
 		std::string path2 = ref::tmpdir() + "/c16r_" + std::to_string(g_caseno % 4) + ".bin";
 		g_caseno++;
-		{
+		if (p.fcopy == 0) {
 			File f(String(path.c_str()), File::WRITE);
 			VF_CHECK(!!f, "harness: cannot create ", path);
 			f.setEndian((Endian)p.init);
@@ -848,16 +958,35 @@ void vf_run_case(const std::string& part, const vf::Case& c)
 				write_item(f, it, src, "File");
 			// closed by the destructor
 		}
+		else {
+			// the order is configured on one object, a copy of it does the writing
+			File proto(String(path.c_str()));
+			proto.setEndian((Endian)p.init);
+			Array<File> arr;
+			File direct(proto), viafn = file_by_value(proto);
+			arr << proto;
+			File& f = p.fcopy == 1 ? direct : p.fcopy == 2 ? viafn : arr[0];
+			VF_CHECK(f.open(File::WRITE), "harness: cannot create ", path);
+			for (const Item& it : p.items)
+				write_item(f, it, src, p.fcopy == 1 ? "File (copy-constructed from the configured object)" : p.fcopy == 2 ? "File (passed and returned by value)" : "File (element of an Array<File>)");
+			f.close();
+		}
 		std::string got;
 		VF_CHECK(ref::slurp(path, got), "harness: cannot read ", path);
 		unlink(path.c_str());
 		compare_bytes(p, got, "File");
 		VF_CHECK(ref::spit(path2, p.all), "harness: cannot write ", path2);
 		try {
-			FileIn in(path2);
+			File proto(String(path2.c_str()));
+			proto.setEndian((Endian)p.init);
+			Array<File> arr;
+			arr << proto;
+			std::unique_ptr<FileIn> inp(p.fcopy == 0 ? new FileIn(path2) : p.fcopy == 1 ? new FileIn(proto, 0) : p.fcopy == 2 ? new FileIn(file_by_value(proto), 0) : new FileIn(arr[0], 0));
+			FileIn& in = *inp;
 			VF_CHECK(!!in.f, "harness: cannot open ", path2);
-			in.setEndian((Endian)p.init);
-			read_back(in, p, "File");
+			if (p.fcopy == 0)
+				in.setEndian((Endian)p.init);
+			read_back(in, p, p.fcopy == 0 ? "File" : p.fcopy == 1 ? "File (copy-constructed from the configured object)" : p.fcopy == 2 ? "File (passed and returned by value)" : "File (element of an Array<File>)");
 			char extra;
 			VF_CHECK(in.f.read(&extra, 1) == 0, "File reader: bytes left after reading everything back");
 		}
@@ -1037,6 +1166,29 @@ static Gen<vf::Case> casegen()
 			c.ops.push_back(o);
 		if (*vf::irange<int>(0, 7) == 0)
 			c.ops.push_back(*fraggen());
+		if (*vf::irange<int>(0, 3) == 0)
+			c.ops.push_back(vf::Op("fcopy", {*vf::irange<int>(1, 3)}));
+		return c;
+	});
+}
+
+// one big array (1..4 MB) in a non-swapping order (a single write() of the whole block), followed by an order switch and a few values
+static Gen<vf::Case> bigwritegen()
+{
+	return gen::exec([]() {
+		vf::Case c;
+		c.ops.push_back(vf::Op("init", {*gen::elementOf(std::vector<int>{1, 2})}));
+		if (*vf::irange<int>(0, 2) == 0)
+			c.ops.push_back(vf::Op("v", {6, *pattern(6)}));
+		int t = *gen::elementOf(std::vector<int>{7, 7, 6, 11, 8, 3, 5});
+		long long bytes = *gen::elementOf(std::vector<long long>{1 << 20, 3 << 19, 1 << 21, (1 << 20) + 12345 * 8});
+		c.ops.push_back(vf::Op("big", {t, bytes / TYPE_SIZE[t], *vf::irange<long long>(0, 1000000000LL)}));
+		c.ops.push_back(vf::Op("order", {0}));
+		int n = *vf::irange<int>(1, 4);
+		for (int i = 0; i < n; i++) {
+			int t2 = *vf::irange<int>(3, 11);
+			c.ops.push_back(vf::Op("v", {t2, *pattern(t2)}));
+		}
 		return c;
 	});
 }
@@ -1197,6 +1349,23 @@ static void classify(const vf::Case& c)
 		st.cls("case.nan_payload");
 	if (p.items.size() >= 40)
 		st.cls("case.ops>=40");
+	bool copied = false;
+	if (p.fcopy) {
+		static const char* fn[] = {"", "copy_constructed", "passed_and_returned_by_value", "Array<File>_element"};
+		st.cls(std::string("file.io_through_a_copy.") + fn[p.fcopy]);
+		// the copy matters when multi-byte data is written in the swapping order that was configured on the original
+		for (const Item& it : p.items) {
+			if (it.kind == 0)
+				break;
+			if (it.order == 0 && ((it.kind == 1 || it.kind == 2) ? TYPE_SIZE[it.t] > 1 && !it.x.empty() : it.kind == 5))
+				copied = true;
+		}
+		if (copied)
+			st.cls("file.io_through_a_copy.BIG_order_inherited_by_the_copy");
+	}
+	for (const Item& it : p.items)
+		if (it.kind == 2 && it.x.size() > 100000)
+			st.cls(std::string("bigwrite.array_of_") + TYPE_NAME[it.t]);
 	bool reconn = false;
 	if (p.lorder >= 0) {
 		// (only the part "accept" acts on it)
@@ -1273,7 +1442,7 @@ static void classify(const vf::Case& c)
 				st.cls("frag.cut_on_a_value_boundary");
 		}
 	}
-	if (multi || sw || native || fragnt || rewritten || reconn) {
+	if (multi || sw || native || fragnt || rewritten || reconn || copied) {
 		st.nt(vf::fnv(vf::serialize(c)));
 		if (p.items.size() >= 3 && p.items.size() <= 6 && p.all.size() < 60)
 			st.sample(vf::serialize(c) + "-> " + vf::hexs(p.all), 4);
@@ -1326,4 +1495,6 @@ void vf_search(const vf::Args& a)
 	[&]() { vf::check_cases("reconn", a.n(80, 600), 40, reconngen(), classify); }();
 	// (5) an accepted asl Socket next to a configured listening Socket
 	[&]() { vf::check_cases("accept", a.n(80, 600), 40, acceptgen(), classify); }();
+	// (6) one big << that needs many short send()s
+	[&]() { vf::check_cases("bigwrite", a.n(3, 12), 40, bigwritegen(), classify); }();
 }
